@@ -6,6 +6,7 @@ import petl.config as cfg
 from hypothesis import strategies as st
 
 from pv import gen, codec
+from pv import scale
 from pv.core import Sub, Fail, exc_fail
 
 ID = "C19"
@@ -102,7 +103,31 @@ def _surfaced(e, cls, token):
     return False
 
 
+def _at_scale(case, b):
+    """The same case on N rows: the failing pattern of the small case either repeats every n rows ('cycle') or sits in the
+    last n rows only, after N - n rows that do not fail ('uniform-first')."""
+    n, N = case["n"], b["rows"]
+    if not n:
+        return case
+    off = N - n
+
+    def rows_of(r0):
+        return [r for r in range(N) if r % n == r0] if b["mode"] == "cycle" else [off + r0]
+    c = dict(case, n=N, skip_rows=[], short={}, late_mapping=False, exc_cells=False)
+    if "failing" in case and case["failing"] and isinstance(case["failing"][0], list):
+        c["failing"] = [[r, f] for r0, f in case["failing"] for r in rows_of(r0)]
+    elif "failing" in case:
+        c["failing"] = sorted(r for r0 in case["failing"] for r in rows_of(r0))
+    if "plan" in case:
+        c["plan"] = [case["plan"][r % n] if b["mode"] == "cycle" else (case["plan"][r - off] if r >= off else [1, False]) for r in range(N)]
+    return c
+
+
 def check(case, ctx):
+    b = scale.derive(case, odds=20, sizes=[130, 300, 600], wide=False)
+    if b and case["n"]:
+        case = _at_scale(case, b)
+        scale.label(ctx, b)
     op, nf, n, policy = case["op"], case["nf"], case["n"], case["policy"]
     cls = EXC[case["exc"]]
     errorvalue = case["errorvalue"]
